@@ -49,15 +49,16 @@ theorem reserved_iff_held (sortFn : List Utxo → List Utxo) (ops : List Op) (oi
 
 /-! ### 2. a successful Reserve -/
 
-/-- `reserve_ok_spec`: a successful reservation gets the next id, holds only outputs that
-    `findUtxos` listed (wallet DB standard records, plus unconfirmed ones if asked), of the
-    requested account / asset / vote, mature at the current height, not reserved before;
-    their amounts (as a list) sum to at least the request and the change is the excess; the
-    new state records exactly this reservation. -/
+/-- `reserve_ok_spec` (full strength): a successful reservation gets the next id and holds
+    pairwise DISTINCT outputs, each listed by `findUtxos` (wallet DB standard records, plus
+    unconfirmed ones if asked), of the requested account / asset / vote, mature at the current
+    height, not reserved before; they sum to at least the request and the change is the excess;
+    the new state records exactly this reservation. -/
 theorem reserve_ok_spec (sortFn : List Utxo → List Utxo) (hperm : ∀ l, (sortFn l).Perm l) (k : Keeper)
     (acct asset amount : Nat) (useUnc : Bool) (vote exp : Nat) (r : Res) (k' : Keeper)
     (h : reserveWith sortFn k acct asset amount useUnc vote exp = (.ok r, k')) :
     r.id = k.next + 1 ∧ r.expiry = exp ∧
+    (r.utxos.map (·.id)).Nodup ∧
     (∀ u ∈ r.utxos, u ∈ listed k useUnc ∧ u.account = acct ∧ u.asset = asset ∧ u.vote = vote ∧
         u.validHeight ≤ k.height ∧ mLookup u.id k.reserved = none) ∧
     amount ≤ amounts r.utxos ∧ r.change = amounts r.utxos - amount ∧
@@ -66,128 +67,58 @@ theorem reserve_ok_spec (sortFn : List Utxo → List Utxo) (hperm : ∀ l, (sort
   · rw [h0] at h
     simp only [Prod.mk.injEq, Outcome.ok.injEq] at h
     obtain ⟨rfl, rfl⟩ := h
-    refine ⟨hid, hexp, ?_, hge, hch, rfl⟩
+    refine ⟨hid, hexp, reserved_nodup sortFn hperm k acct asset useUnc vote _ hsub, ?_, hge, hch, rfl⟩
     intro u hu
     have hm := hsub.subset hu
     simp only [List.mem_filter, isReserved, Bool.not_eq_true', Option.isSome_eq_false_iff,
       Option.isNone_iff_eq_none] at hm
     have hc := (hperm _).mem_iff.mp hm.1
-    simp only [findUtxos, matching, List.mem_filter, matchesReq, mature, Bool.and_eq_true, beq_iff_eq,
-      decide_eq_true_eq] at hc
-    exact ⟨hc.1.1, hc.1.2.1.1, hc.1.2.1.2, hc.1.2.2, hc.2, hm.2⟩
+    simp only [findUtxos, List.mem_filter, mature, decide_eq_true_eq] at hc
+    obtain ⟨h1, h2, h3, h4⟩ := mem_matching hc.1
+    exact ⟨h1, h2, h3, h4, hc.2, hm.2⟩
   · exact absurd (by rw [h]) (hne r)
 
-/-- FULL statement of "holds distinct outputs": refuted below. -/
-def reserve_distinct_full : Prop :=
-  ∀ (k : Keeper) (acct asset amount : Nat) (useUnc : Bool) (vote exp : Nat) (r : Res) (k' : Keeper),
-    reserve k acct asset amount useUnc vote exp = (.ok r, k') → (r.utxos.map (·.id)).Nodup
-
-/-- FULL statement of "the distinct outputs held cover the request": refuted below. -/
-def reserve_covers_full : Prop :=
-  ∀ (k : Keeper) (acct asset amount : Nat) (useUnc : Bool) (vote exp : Nat) (r : Res) (k' : Keeper),
-    reserve k acct asset amount useUnc vote exp = (.ok r, k') → amount ≤ amounts (distinctById r.utxos)
-
-/-- F16 witness: output 1 (amount 5) is a wallet-DB record AND in the unconfirmed map. -/
+/-- the former F16 witness: output 1 (amount 5) is a wallet-DB record AND in the unconfirmed map -/
 def f16Keeper : Keeper :=
   { empty with confirmed := [⟨1, 1, 5, 1, 0, 0, false, 0⟩], unconfirmed := [⟨1, 1, 5, 1, 0, 0, false, 0⟩] }
 
-theorem reserve_distinct_full_refuted : ¬ reserve_distinct_full := by
-  intro h
-  have := h f16Keeper 1 1 10 true 0 50 _ _ rfl
-  revert this; decide
+/-- it is listed once now: a request of 10 over the single output of 5 is insufficient, a request
+    of 4 holds the output once with change 1 -/
+example : (reserve f16Keeper 1 1 10 true 0 50).1 = .err .insufficient := by decide
+example : (reserve f16Keeper 1 1 4 true 0 50).1 = .ok ⟨1, [⟨1, 1, 5, 1, 0, 0, false, 0⟩], 1, 50⟩ := by decide
 
-theorem reserve_covers_full_refuted : ¬ reserve_covers_full := by
-  intro h
-  have := h f16Keeper 1 1 10 true 0 50 _ _ rfl
-  revert this; decide
-
-/-- `reserve_distinct_partial`: when no output id is listed twice (the wallet-DB records
-    and the unconfirmed map are disjoint, or unconfirmed outputs are not used), a successful
-    reservation holds pairwise distinct outputs — and then the list sum of `reserve_ok_spec`
-    IS the sum over distinct outputs. -/
-theorem reserve_distinct_partial (sortFn : List Utxo → List Utxo) (hperm : ∀ l, (sortFn l).Perm l) (k : Keeper)
-    (acct asset amount : Nat) (useUnc : Bool) (vote exp : Nat) (r : Res) (k' : Keeper)
-    (hnodup : ((listed k useUnc).map (·.id)).Nodup)
-    (h : reserveWith sortFn k acct asset amount useUnc vote exp = (.ok r, k')) :
-    (r.utxos.map (·.id)).Nodup ∧ amount ≤ amounts (distinctById r.utxos) ∧
-      r.change = amounts (distinctById r.utxos) - amount := by
-  rcases reserveWith_cases sortFn k acct asset amount useUnc vote exp with ⟨r0, h0, _, _, hsub, hge, hch⟩ | ⟨_, hne⟩
-  · rw [h0] at h
-    simp only [Prod.mk.injEq, Outcome.ok.injEq] at h
-    obtain ⟨rfl, rfl⟩ := h
-    have hnd : (r0.utxos.map (·.id)).Nodup := by
-      have s1 : (r0.utxos.map (·.id)).Sublist ((sortFn (findUtxos k acct asset useUnc vote).1).map (·.id)) :=
-        (hsub.trans List.filter_sublist).map _
-      have p1 : ((sortFn (findUtxos k acct asset useUnc vote).1).map (·.id)).Perm
-          ((findUtxos k acct asset useUnc vote).1.map (·.id)) := (hperm _).map _
-      have s2 : ((findUtxos k acct asset useUnc vote).1.map (·.id)).Sublist ((listed k useUnc).map (·.id)) := by
-        simp only [findUtxos, matching]
-        exact (List.filter_sublist.trans List.filter_sublist).map _
-      exact s1.nodup (p1.nodup_iff.mpr (s2.nodup hnodup))
-    rw [distinctById_of_nodup _ hnd]
-    exact ⟨hnd, hge, hch⟩
-  · exact absurd (by rw [h]) (hne r)
-
-example : ((listed { empty with confirmed := [⟨1, 1, 5, 1, 0, 0, false, 0⟩], unconfirmed := [⟨2, 1, 7, 1, 0, 0, false, 0⟩] } true).map (·.id)).Nodup ∧
-    (reserve { empty with confirmed := [⟨1, 1, 5, 1, 0, 0, false, 0⟩], unconfirmed := [⟨2, 1, 7, 1, 0, 0, false, 0⟩] } 1 1 10 true 0 50).1
+example : (reserve { empty with confirmed := [⟨1, 1, 5, 1, 0, 0, false, 0⟩], unconfirmed := [⟨2, 1, 7, 1, 0, 0, false, 0⟩] } 1 1 10 true 0 50).1
       = .ok ⟨1, [⟨2, 1, 7, 1, 0, 0, false, 0⟩, ⟨1, 1, 5, 1, 0, 0, false, 0⟩], 2, 50⟩ := by decide
 
 /-! ### 3. which outcome Reserve reports -/
 
-/-- `reserve_err_spec`: for a positive amount Reserve never panics and reports success /
-    ErrInsufficient / ErrImmature / ErrReserved exactly by the inequalities between the
-    request and the sums of the available (mature, unreserved), reserved (mature, reserved)
-    and immature amounts of the LISTED matching records. -/
-theorem reserve_err_spec (sortFn : List Utxo → List Utxo) (hperm : ∀ l, (sortFn l).Perm l) (k : Keeper)
-    (acct asset amount : Nat) (useUnc : Bool) (vote exp : Nat) (hpos : 0 < amount) :
-    outcomeClass (reserveWith sortFn k acct asset amount useUnc vote exp).1 =
-      some (classify (availOf k (matching k acct asset useUnc vote)) (resvOf k (matching k acct asset useUnc vote))
-        (immOf k (matching k acct asset useUnc vote)) amount) :=
-  reserveWith_outcome sortFn hperm k acct asset amount useUnc vote exp hpos
-
-/-- FULL statement: the outcome is decided by the sums over DISTINCT outputs. Refuted. -/
-def reserve_err_full : Prop :=
-  ∀ (k : Keeper) (acct asset amount : Nat) (useUnc : Bool) (vote exp : Nat), 0 < amount →
-    outcomeClass (reserve k acct asset amount useUnc vote exp).1 =
-      some (classify (availOf k (distinctById (matching k acct asset useUnc vote)))
-        (resvOf k (distinctById (matching k acct asset useUnc vote)))
-        (immOf k (distinctById (matching k acct asset useUnc vote))) amount)
-
-/-- witness: the doubly listed output 1 (amount 5) is reserved; Reserve 8 answers
-    "reserved" (5+5 ≥ 8) although all outputs together hold only 5: "insufficient". -/
-theorem reserve_err_full_refuted : ¬ reserve_err_full := by
-  intro h
-  have := h (reserveParticular f16Keeper 1 false 50).2 1 1 8 true 0 50 (by decide)
-  revert this; decide
-
-theorem reserve_err_partial (sortFn : List Utxo → List Utxo) (hperm : ∀ l, (sortFn l).Perm l) (k : Keeper)
-    (acct asset amount : Nat) (useUnc : Bool) (vote exp : Nat) (hpos : 0 < amount)
-    (hnodup : ((listed k useUnc).map (·.id)).Nodup) :
-    outcomeClass (reserveWith sortFn k acct asset amount useUnc vote exp).1 =
-      some (classify (availOf k (distinctById (matching k acct asset useUnc vote)))
-        (resvOf k (distinctById (matching k acct asset useUnc vote)))
-        (immOf k (distinctById (matching k acct asset useUnc vote))) amount) := by
-  have : ((matching k acct asset useUnc vote).map (·.id)).Nodup :=
-    (List.filter_sublist.map _).nodup hnodup
-  rw [distinctById_of_nodup _ this]
-  exact reserve_err_spec sortFn hperm k acct asset amount useUnc vote exp hpos
-
-/-- FULL statement "Reserve never panics". Refuted: amount 0 with an unreserved candidate. -/
-def reserve_never_panics_full : Prop :=
-  ∀ (k : Keeper) (acct asset amount : Nat) (useUnc : Bool) (vote exp : Nat),
-    outcomeClass (reserve k acct asset amount useUnc vote exp).1 ≠ none
-
-theorem reserve_never_panics_full_refuted : ¬ reserve_never_panics_full := by
-  intro h
-  exact h { empty with confirmed := [⟨1, 1, 5, 1, 0, 0, false, 0⟩] } 1 1 0 false 0 50 (by decide)
-
-theorem reserve_never_panics_partial (sortFn : List Utxo → List Utxo) (k : Keeper)
-    (acct asset amount : Nat) (useUnc : Bool) (vote exp : Nat) (hpos : 0 < amount) :
+/-- `reserve_never_panics` (full strength): Reserve answers for every request, amount 0 included. -/
+theorem reserve_never_panics (sortFn : List Utxo → List Utxo) (k : Keeper)
+    (acct asset amount : Nat) (useUnc : Bool) (vote exp : Nat) :
     outcomeClass (reserveWith sortFn k acct asset amount useUnc vote exp).1 ≠ none := by
-  obtain ⟨⟨opt, a, ra⟩, hopt⟩ := optUTXOs_some_of_pos k (sortFn (findUtxos k acct asset useUnc vote).1) amount hpos
+  obtain ⟨⟨opt, a, ra⟩, hopt⟩ := optUTXOs_some k (sortFn (findUtxos k acct asset useUnc vote).1) amount
   unfold reserveWith
   simp only [hopt]
   split_ifs <;> simp [outcomeClass]
+
+/-- the former F16c witness: amount 0 with an unreserved candidate succeeds with an empty selection -/
+example : (reserve { empty with confirmed := [⟨1, 1, 5, 1, 0, 0, false, 0⟩] } 1 1 0 false 0 50).1 = .ok ⟨1, [], 0, 50⟩ := by decide
+
+/-- `reserve_err_spec` (full strength): Reserve reports success / ErrInsufficient / ErrImmature /
+    ErrReserved exactly by the inequalities between the request and the sums of the available
+    (mature, unreserved), reserved (mature, reserved) and immature amounts of the DISTINCT
+    matching outputs (`matching` lists every output id once). -/
+theorem reserve_err_spec (sortFn : List Utxo → List Utxo) (hperm : ∀ l, (sortFn l).Perm l) (k : Keeper)
+    (acct asset amount : Nat) (useUnc : Bool) (vote exp : Nat) :
+    outcomeClass (reserveWith sortFn k acct asset amount useUnc vote exp).1 =
+      some (classify (availOf k (matching k acct asset useUnc vote)) (resvOf k (matching k acct asset useUnc vote))
+        (immOf k (matching k acct asset useUnc vote)) amount) ∧
+    ((matching k acct asset useUnc vote).map (·.id)).Nodup :=
+  ⟨reserveWith_outcome sortFn hperm k acct asset amount useUnc vote exp, distinctById_nodup _⟩
+
+/-- the former F16b witness: the doubly listed output 1 (amount 5) is reserved; Reserve 8 now
+    answers "insufficient" (all outputs together hold 5) -/
+example : (reserve (reserveParticular f16Keeper 1 false 50).2 1 1 8 true 0 50).1 = .err .insufficient := by decide
 
 /-- the sort the driver (and `reserve`) uses is a permutation, so every theorem above
     applies to `reserve = reserveWith sortDesc`. -/
